@@ -307,6 +307,10 @@ def build_model(inputs, tracer, flat_outs):
     return model
 
 
+# exception classes that no implementation raises on purpose to decline an argument combination
+_CRASH_EXC = (RecursionError, IndexError, KeyError, ZeroDivisionError, UnboundLocalError, NameError, MemoryError)
+
+
 def _flatten_torch(want, E):
     """torch result -> (structure tag, [numpy arrays])."""
     torch = E.torch
@@ -417,6 +421,13 @@ def judge(qn, cls, args, kwargs, *, mode="value", scale=1.0, want_repro=True):
         root = e
         while root.__cause__ is not None:
             root = root.__cause__
+        if isinstance(root, _CRASH_EXC):
+            # not a refusal: the implementation itself fell over (unbounded recursion, an index past the end of a list ...)
+            # on a call PyTorch executes
+            hit("trace_crash")
+            key = f"op={qn};kind=trace_crash;exc={type(root).__name__};class={cls}"
+            what = f"{qn} [{cls}]: tracing raises {type(root).__name__}: {str(root)[:160]} (torch executes the call); call: {describe(args, kwargs)[:400]}".replace("\n", " ")
+            return {"status": "violation", "events": ev, "viol": {"key": key, "what": what, "detail": {"call": f"{qn}({describe(args, kwargs)})", "function": fn.name}}}
         return {"status": "refused", "events": ev, "info": f"{type(root).__name__}: {str(root)[:200]}"}
     hit("traced")
     hit("nodes_recorded", len(tracer.nodes))
